@@ -1,7 +1,7 @@
 (* C17 - resuming a session re-sends exactly the unfinished outbound handshakes.
    The disconnection is recorded through the hook the property names
    (Context::verif_mark_disconnected, --cfg poster_verif); elapsed time is a model parameter. *)
-From Poster Require Import Model.Sim Proofs.ClientP Proofs.QuotaP Proofs.HandshakeP Proofs.ResumeP Proofs.SimInvP Proofs.OwnP Proofs.TraceP.
+From Poster Require Import Proofs.IndepP Model.Sim Proofs.ClientP Proofs.QuotaP Proofs.HandshakeP Proofs.ResumeP Proofs.SimInvP Proofs.OwnP Proofs.TraceP.
 
 (* expiry: interval 0, or a finite interval that has elapsed; 0xFFFFFFFF never expires *)
 Theorem C17_expiry : forall (x : ctx) (t : N), t < 4294967296 ->
@@ -123,3 +123,15 @@ Theorem C17_queue_after_poll : forall s : sys, cph s = CRunning -> hold s = fals
   retx (c (settle s)) = unfinished s (retx (c s)) (trace (settle_fuel s) s).
 Proof. exact retx_after_poll. Qed.
 Print Assumptions C17_queue_after_poll.
+
+(* a CONNACK - accepted or refused, whatever its Session Present flag - leaves the session as it is: awaited
+   acknowledgements, subscriptions, the retransmit queue, the identifiers awaiting PUBREL and the recorded disconnection;
+   the Session Expiry Interval in force becomes the CONNACK's when it names one (longer or shorter than the CONNECT's) and
+   stays what the CONNECT set otherwise *)
+Theorem C17_connack_keeps_session : forall (x : ctx) (p : rxpkt),
+  awaiting (handle_connack x p) = awaiting x /\ subs (handle_connack x p) = subs x /\
+  retx (handle_connack x p) = retx x /\ await_rel (handle_connack x p) = await_rel x /\
+  disc_ts (handle_connack x p) = disc_ts x /\
+  sei (handle_connack x p) = match pnum 17 (r_props p) with Some v => v | None => sei x end.
+Proof. exact connack_keeps_session. Qed.
+Print Assumptions C17_connack_keeps_session.
